@@ -35,7 +35,7 @@ pub fn two_run<S: Px, D: Px>(
 ) {
     const PA: u64 = 0x5EED_0A0A;
     const PB: u64 = 0x5EED_0A0A | COMPLEMENT;
-    let mut sb = Backing::<S>::new(sp, sw, sh, 0x7777);
+    let mut sb = Backing::<S>::new(sp, sw, sh, if (sw + sh + dw) % 3 == 0 { 0x7777 | NONFINITE } else { 0x7777 });
     sb.put(src_px);
     let src_before = S::bits_of(&sb.buf);
     let mut results: Vec<(Result<(), String>, Vec<D>, Option<usize>)> = Vec::new();
